@@ -120,8 +120,21 @@ func (nr *netRun) checkC09(x *xfer) {
 							}
 						}
 					}
+					// lower bound of when the ending began: the close call, the arrival of the peer's cancel, or the announcement
+					endLB := entryStep
+					for _, op := range nr.ops {
+						if op.X == x && op.Node == n && (op.Kind == "Close" || op.Kind == "CloseWithError") && op.Call.S0 < endLB {
+							endLB = op.Call.S0
+						}
+					}
 					for _, w := range n.Wire {
-						if w.Life == n.life && w.Dir == "recv" && w.Carrier == "graphsync" && w.Sum.TID == x.chid.ID && (w.Sum.New || w.Sum.Restart) && w.Step > entryStep {
+						if w.Life == n.life && w.Sum.Cancel && w.Sum.TID == x.chid.ID && w.Step < endLB {
+							endLB = w.Step
+						}
+					}
+					// an incoming graphsync request of the channel whose hook had not returned before the ending began
+					for _, ir := range n.GS.inHistory {
+						if m := dtOf(ir.exts); m != nil && m.TransferID() == x.chid.ID && ir.step >= endLB {
 							cause = "|acquired-after-cleanup"
 						}
 					}
@@ -136,6 +149,21 @@ func (nr *netRun) checkC09(x *xfer) {
 					r.Failf("C09", "store-not-released", n.Name+cause, "node %s channel #%d is %s but its per-channel store is still registered with graphsync", n.Name, x.idx, datatransfer.Statuses[last.Snap.Status])
 				}
 			}
+		}
+	}
+	// whoever hands a cancel message to the network (user close, monitor close-with-error, rejected request) is
+	// closing the channel: it must end in a terminal status, even when that send fails
+	for _, n := range []*Node{nr.A, nr.B} {
+		for _, w := range n.Wire {
+			if w.Dir != "send" || !w.Sum.Cancel || w.Sum.TID != x.chid.ID || w.Life != n.life || w.Carrier != "libp2p" {
+				continue
+			}
+			if s, ok := n.State(x.chid); ok && !isTerminal(s.Status) {
+				// F2 victims (channel lock held for ever) are reported by the every-call-returns oracle
+				r.Failf("C09", "closed-but-not-terminal", n.Name+"|"+datatransfer.Statuses[s.Status], "node %s handed a cancel message for channel #%d to the network (closing it) but the channel is %s at quiescence after settle", n.Name, x.idx, datatransfer.Statuses[s.Status])
+			}
+			r.Probe("cancel-message-sent")
+			break
 		}
 	}
 	// closing
@@ -387,6 +415,30 @@ func (nr *netRun) checkC11(x *xfer) {
 			}
 		}
 	}
+	// a successful local resume clears the local flag while the transfer is still in progress
+	for _, n := range []*Node{nr.A, nr.B} {
+		var mine []*appOp
+		for _, op := range nr.ops {
+			if op.X == x && op.Node == n && (op.Kind == "Pause" || op.Kind == "Resume") {
+				mine = append(mine, op)
+			}
+		}
+		for i, op := range mine {
+			if op.Kind != "Resume" || !op.PostOK || op.Call.Err != nil || n != nr.A || op.Life != n.life {
+				continue
+			}
+			// no other pause of this node overlapping or following before the post-state was read
+			clean := true
+			for j, o := range mine {
+				if j != i && o.Kind == "Pause" && o.Call.S0 <= op.Call.S1+50 && (!o.Call.Returned || o.Call.S1 >= op.Call.S0) {
+					clean = false
+				}
+			}
+			if clean && op.Post.Status.Transferring() && op.Post.IPaused {
+				r.Failf("C11", "resume-ignored-while-transferring", datatransfer.Statuses[op.Post.Status], "node A resumed channel #%d (call returned nil) while it was %s, yet its own InitiatorPaused flag is still set", x.idx, datatransfer.Statuses[op.Post.Status])
+			}
+		}
+	}
 	// agreement at quiescence (fault-free runs, both sides Ongoing)
 	if len(r.Faults) == 0 {
 		sa, okA := nr.A.State(x.chid)
@@ -595,4 +647,36 @@ func count(l []string, s string) int {
 		}
 	}
 	return n
+}
+
+// ---------------------------------------------------------------- C14 (net): persistent restart failure ends in a close-with-error
+
+func (nr *netRun) checkC14() {
+	r := nr.r
+	if !nr.cfg.sendFail || nr.sendFailAt == 0 {
+		return
+	}
+	for _, n := range []*Node{nr.A, nr.B} {
+		if n.Cfg.Monitor == nil || n != nr.A {
+			continue
+		}
+		for _, x := range nr.xs {
+			if !x.opened {
+				continue
+			}
+			sawErr := false
+			for _, e := range n.EventsOf(x.chid) {
+				if (e.Code == datatransfer.SendDataError || e.Code == datatransfer.ReceiveDataError) && e.Step >= nr.sendFailAt && !isTerminal(e.Snap.Status) && !isCleanup(e.Snap.Status) {
+					sawErr = true
+				}
+			}
+			if !sawErr {
+				continue
+			}
+			r.Probe("monitored-channel-hit-by-persistent-failure")
+			if s, ok := n.State(x.chid); ok && !isTerminal(s.Status) {
+				r.Failf("C14", "persistent-failure-not-closed", "netsim|"+datatransfer.Statuses[s.Status], "node %s monitors channel #%d; after a transport error every restart message failed to send for 5 simulated minutes, yet the channel was never closed with an error (status %s after settle)", n.Name, x.idx, datatransfer.Statuses[s.Status])
+			}
+		}
+	}
 }
